@@ -725,9 +725,12 @@ C16tags_OK(ev) ==
           /\ \E t \in 1..Len(ev.tags) : /\ ev.tags[t].inside = 1 /\ ev.clsmap[ev.doc.elems[i].cls[q]] \in RangeOf(ev.tags[t].names)
                                         /\ BoxIn(TagBox(ev.tags[t]), ShapeBox(ev.doc.elems[i]))
   \* other text is unaffected: every label cell that is not part of a tag is still covered by a text element
+  \* (a quoted string in the picture is shown by its own text element, C15; the rest is read with the quoted regions blanked)
   /\ LET crs == DrawCells(ev)
+         blanked == [r \in 1..Len(crs) |-> BlankQuoted(crs[r])]
          tagcells == UNION { { <<ev.tags[t].r + 1, ev.tags[t].c + j>> : j \in 1..Len(TagText(ev.tags[t])) } : t \in 1..Len(ev.tags) }
-         T == OfKind(ev.doc, "text") IN
-     /\ \A i \in T : TextMatches(crs, ev.doc.elems[i])
-     /\ (NonDrawingCells(crs) \ tagcells) \subseteq UNION { TextCovered(ev.doc.elems[i]) : i \in T }
+         T == OfKind(ev.doc, "text")
+         P == { i \in T : ~IsQuotedText(crs, ev.doc.elems[i]) } IN
+     /\ \A i \in P : TextMatches(blanked, ev.doc.elems[i])
+     /\ (NonDrawingCells(blanked) \ tagcells) \subseteq UNION { TextCovered(ev.doc.elems[i]) : i \in P }
 =============================================================================
